@@ -107,7 +107,7 @@ pharness!(c08_sender_try_consume, |s| {
     std::mem::forget((st, consumer, _producer));
 });
 
-// @tier thorough
+// @tier probe
 // @timeout 2400
 // @mem 40
 // @unwind 2
@@ -224,7 +224,7 @@ fn window_hook() {
     }
 }
 
-// @tier thorough
+// @tier probe
 // @timeout 2400
 // @mem 40
 // @unwind 3
